@@ -82,7 +82,7 @@ func TestC01(t *testing.T) {
 	var doc map[string]any
 	json.Unmarshal([]byte(`{"t":[{"id":1,"a":1,"s":"b"},{"id":2,"a":3,"s":"a"},{"id":3,"a":2,"s":"B"},{"id":4,"a":10,"s":"ab"},{"id":5,"a":3,"s":"a"},{"id":6,"a":-1,"s":"c"}]}`), &doc)
 	all := "1,2,3,4,5,6"
-	r2 := &result{Property: "C01", Name: "complement-between-partition", Bound: "6-row table with an integer and a string column; 9 IN lists, 16 BETWEEN bounds, 40 predicates from the operator grammar to depth 2"}
+	r2 := &result{Property: "C01", Name: "complement-between-partition", Bound: "6-row table with an integer and a string column; 13 IN lists (4 of them subqueries, one without rows, one over a missing table), 16 BETWEEN bounds, 40 predicates from the operator grammar to depth 2"}
 	split := func(s string) map[string]bool {
 		m := map[string]bool{}
 		for _, x := range strings.Split(s, ",") {
@@ -92,7 +92,9 @@ func TestC01(t *testing.T) {
 		}
 		return m
 	}
-	for _, list := range []string{"(1)", "(1, 3)", "(3, 3)", "(2, 10, -1)", "(7)", "('a')", "('a', 'b')", "('B', 'zz')", "(1, 2, 3, 10, -1)"} {
+	// lists that come from a subquery over the same table (`<-t`): some rows, one row, no row at all
+	for _, list := range []string{"(1)", "(1, 3)", "(3, 3)", "(2, 10, -1)", "(7)", "('a')", "('a', 'b')", "('B', 'zz')", "(1, 2, 3, 10, -1)",
+		"(SELECT a FROM `<-t` WHERE a > 1)", "(SELECT a FROM `<-t` WHERE a = 3)", "(SELECT a FROM `<-t` WHERE a > 1000)", "(SELECT a FROM `<-missing`)"} {
 		col := "a"
 		if strings.Contains(list, "'") {
 			col = "s"
